@@ -185,6 +185,9 @@ def gen_cases(rng, tier):
         cases.append(["conn%d" % j, "c16", "conn", "in" if incoming else "out", ";".join(g + tail)])
     for j, g in enumerate(("frame,close", "close", "clone,frame,close;adv:100", "garbage", "frame,garbage;adv:5", "frame;adv:31000;close", "select,close", "frame,frame,close;select")):
         cases.append(["connx%d" % j, "c16", "conn", "out", g + ";drop,drop,drop,drop;adv:70000"])
+    # usages registered (free function register_usage) for dialogs that do not exist any more / never did: no entry may appear
+    for j, (setup, evs) in enumerate((("C:1", "K:1"), ("C:1", "K:10"), ("S:7:1", "K:4,D:0:0,K:4"), ("C:1,S:3:2", "K:2,U:0,K:2"))):
+        cases.append(["stale%d" % j, "c16", "stale", setup, evs])
     # server transactions whose peer never answers the answer: INVITE failures without ACK, non-INVITE finals, over unreliable and
     # reliable transports, with and without retransmissions / legacy branches: gone after 64*T1
     P06 = importlib.import_module("props.c06")
@@ -243,6 +246,10 @@ def normalize_impl(case, s):
     if case[2] == "srv":
         m = re.search(r"tsx=(\d+)", s)
         return "quiesced=tsx%s/tp0/dlg0/backlog0/cancel0" % (m.group(1) if m else "?")
+    if case[2] == "stale":
+        m = re.search(r"B=(\d+)/(\d+)", s)
+        nd = len(case[3].split(","))
+        return "quiesced=tsx0/tp0/dlg%d/backlog0/cancel0" % ((int(m.group(1)) - nd) if m else -1)
     if case[2] == "conn":
         # the model's quiescent state: every table empty; the connection table is the one observed here
         last = [o for o in s.split(";") if o][-1:] or [""]
@@ -262,6 +269,15 @@ def oracle(case, impl):
             return ["no observation: " + impl[:200]]
         if m.group(1) != "0" or m.group(2) != "0":
             out.append("STUN transaction entry outlives the call (%s): pending=%s after the call returned, %s later" % (case[6], m.group(1), m.group(2)))
+        return out
+    if case[2] == "stale":
+        m = re.search(r"B=(\d+)/(\d+)", impl)
+        if not m:
+            return ["no observation: " + impl[:200]]
+        nd = len(case[3].split(","))
+        if int(m.group(1)) != nd or "registered:" in impl:
+            out.append("register_usage for dialogs that do not exist left %d dialog entr%s behind (%s live dialog object(s)): %s" % (
+                int(m.group(1)) - nd, "y" if int(m.group(1)) - nd == 1 else "ies", nd, impl[:120]))
         return out
     if case[2] == "srv":
         m = re.search(r"tsx=(\d+)", impl)
@@ -321,7 +337,7 @@ def nontrivial(case, impl):
         return case[3]
     if case[2] == "conn":
         return case[3] + case[4]
-    if case[2] == "srv":
+    if case[2] in ("srv", "stale"):
         return "|".join(case[3:])
     return case[5]
 
@@ -333,7 +349,7 @@ def distribution(cases, impl):
         if x[2] == "tsx":
             for it in x[3].split(","):
                 c["tsx:" + it.split(":")[1]] += 1
-        elif x[2] == "conn":
+        elif x[2] in ("conn", "srv", "stale"):
             pass
         elif x[2] == "ua":
             c["ua:" + x[0].split("-")[1]] += 1
